@@ -45,6 +45,8 @@ func (o op) token() string {
 		return string(o.kind) + o.chain.Token()
 	case 'q':
 		return "q" + o.chain.Token() + "|" + o.chain2.Token()
+	case 'D', 'U', 'Z':
+		return string(o.kind)
 	}
 	return fmt.Sprintf("%c%d=%s", o.kind, o.pfx, o.path.Token())
 }
@@ -115,6 +117,7 @@ func parseCase(in string) (tcase, error) {
 			if o.chain2, err = aro.ParseChain(p[1]); err != nil {
 				return c, err
 			}
+		case 'D', 'U', 'Z':
 		case 'a', 'r', 'i', 'o':
 			p := strings.SplitN(t[1:], "=", 2)
 			if len(p) != 2 {
